@@ -815,6 +815,23 @@ func (e *Engine) obligeNamed(st *State, fr *Frame, kind, label string, goal *smt
 	V.nOblig[base]++
 	ob := &Obligation{Name: base, Fn: top, Kind: kind, Label: label, Goal: goal, Pos: pos, Ord: V.nOblig[base],
 		Hyps: append([]*smt.Term(nil), st.PC...), Path: append([]string(nil), st.Trace...)}
+	seenLA := map[*smt.Term]bool{}
+	for _, a := range st.Heap {
+		for _, v := range e.versionedArrs(a) {
+			if !seenLA[v] {
+				seenLA[v] = true
+				ob.LiveArrs = append(ob.LiveArrs, v)
+			}
+		}
+	}
+	for _, a := range st.Mem {
+		for _, v := range e.versionedArrs(a) {
+			if !seenLA[v] {
+				seenLA[v] = true
+				ob.LiveArrs = append(ob.LiveArrs, v)
+			}
+		}
+	}
 	ob.Tags = append(ob.Tags, V.Tags...)
 	if len(tags) > 0 {
 		ob.Tags = append([]string(nil), tags...)
